@@ -413,6 +413,11 @@ func cmdCheck(args []string) {
 		for k, v := range h.Env {
 			cfg.Env[k] = v
 		}
+		for i := range known.Findings {
+			if k := &known.Findings[i]; k.Property == prop && k.Status == "known" && (k.Harness == "" || k.Harness == h.Name) {
+				cfg.KnownKeys = append(cfg.KnownKeys, k.Key)
+			}
+		}
 		if ts.Budget > 0 {
 			cfg.Budget = ts.Budget
 		}
